@@ -5,6 +5,7 @@
 # SEED_PROPS="C01 C05" restricts the properties; default: the seed's own property plus the
 # properties listed in seeded/<id>/also_check (one line, optional).
 cd /verif
+export GVERIF_NORETRY=1   # a broken tree is expected here: no second-chance retries
 SEEDS="$@"; [ -z "$SEEDS" ] && SEEDS=$(ls seeded)
 W=/var/tmp/seedrepo.$$; V=/var/tmp/seedverif.$$
 git -C /repo worktree add --detach $W HEAD >/dev/null 2>&1 || { echo "cannot create worktree"; exit 2; }
@@ -17,6 +18,7 @@ for s in $SEEDS; do
   if ! git -C $W apply $patch 2>/dev/null; then echo "$s: patch does not apply"; echo "patch does not apply to the current tree" > $d/detection.txt; continue; fi
   own=$(python3 -c "import json;print(json.load(open('$d/meta.json'))['breaks_property'])" 2>/dev/null); [ -z "$own" ] && own=${s%-*}
   PROPS=$(echo "$own $(cat $d/also_check 2>/dev/null)" | tr ' ' '\n' | awk 'NF && !seen[$0]++' | tr '\n' ' ')
+  [ -n "$SEED_OWN_ONLY" ] && PROPS="$own"
   [ -n "$SEED_PROPS" ] && PROPS="$SEED_PROPS"
   [ "$SEED_PROPS" = "all" ] && PROPS="$ALL"
   : > $d/detection.txt
